@@ -284,6 +284,17 @@ def run_law(h, cfg):
                     cur = ss
             st.append(cur)
         traj.append(tuple(st))
+    # the recorded histories run as far as the simulation does: up to the last whole step <= tmax unless nobody is infectious any more
+    tm = cfg.get('tmax', 'inf')
+    if isinstance(tm, str) and tm.startswith('steps:'):
+        want_K = int(tm.split(':')[1])
+        alive = 'I' in traj[-1]
+        if K < want_K and alive:
+            h.fail('history-reaches-tmax', {'last_recorded_step': K, 'tmax_step': want_K, 'state_at_last_recorded_step': list(traj[-1])})
+        elif K > want_K:
+            h.fail('history-reaches-tmax', {'last_recorded_step': K, 'tmax_step': want_K})
+        else:
+            h.require('history-reaches-tmax', True)
     return {'traj': [list(x) for x in traj], 'hist': {str(n): [hist[n][0], hist[n][1]] for n in r.nodes}}
 
 
